@@ -62,6 +62,8 @@ def _copyval(v):
         return {k: _copyval(x) for k, x in v.items()}
     if isinstance(v, tuple):
         return tuple(_copyval(x) for x in v)
+    if isinstance(v, list):
+        return [_copyval(x) for x in v]
     return v
 
 
@@ -221,8 +223,10 @@ class Interp:
         for st in stmts:
             last = None
             if st.k == "let":
-                v = self.ev(st["init"], env, depth)
+                v = _copyval(self.ev(st["init"], env, depth))
                 if not self.match_pat(st["pat"], v, env):
+                    if st.get("else") is not None:
+                        self.block(st["else"], env, depth)
                     raise NotPure("let pattern")
             elif st.k == "expr_stmt":
                 v = self.ev(st["e"], env, depth)
